@@ -1282,6 +1282,7 @@ impl<'a> Rw<'a> {
                     .collect();
                 let marker = match t.as_str() {
                     "," => "TokComma",
+                    "=>" => "TokFatArrow",
                     other => {
                         self.errors
                             .push(format!("R11: unsupported Token![{}] in body", other));
